@@ -24,7 +24,14 @@ FMTS = ["default", "test", "state"]
 
 # ------------------------------------------------------------------------------------------ generator
 def g_cond(rng, p=0.3):
-    return [rng.choice(SKEYS), rng.choice(SVALS)] if rng.random() < p else None
+    """one optional rule condition: processing_state, or processing_item_applied for an identifier that
+    transformation items AND post-processing items of any pipeline of the case may carry"""
+    r = rng.random()
+    if r < p * 0.7:
+        return ["state", rng.choice(SKEYS), rng.choice(SVALS)]
+    if r < p:
+        return ["applied", rng.choice(IDS + ["s0"])]
+    return None
 
 
 def g_item(rng):
@@ -97,7 +104,7 @@ def number(case):
     return case
 
 
-def g_base(rng, n=None, tpl=0.25, heavy=False, fmtsdiff=False):
+def g_base(rng, n=None, tpl=0.25, heavy=False, fmtsdiff=False, chain=False):
     n = n or rng.choice([1, 2, 2, 3, 3, 3, 4, 4, 5])
     idents = rng.sample(NAMES, n)
     mode = rng.random()
@@ -167,8 +174,30 @@ def g_base(rng, n=None, tpl=0.25, heavy=False, fmtsdiff=False):
             of[fmt] = g_def(rng, None, rich=False, tpl=0)
         if rng.random() < 0.15:
             of[rng.choice(FMTS)] = g_def(rng, None, rich=False, tpl=0)
-    nr = rng.choice([1, 1, 2])
-    rules = [{"f": rng.choice(FIELDS), "v": rng.choice(VALUES), "two": rng.random() < 0.25} for _ in range(nr)]
+    nr = rng.choice([1, 1, 2, 2, 3] if chain else [1, 1, 2])
+    rules = [{"f": rng.choice(FIELDS), "v": rng.choice(VALUES), "two": rng.random() < (0.6 if chain else 0.25)} for _ in range(nr)]
+    if chain:
+        # processing_item_applied conditions that refer to EARLIER items: transformation items and post-processing
+        # items, of the same pipeline, of another operand / resolver entry, of another stage (backend / format)
+        pipes = defs + [bk] + [of[f] for f in FMTS] + [d for _, e in tab if e[0] != "obj" for d in (e[1] if e[0] == "seq" else [e[1]])]
+        marks = ["[ ", "{", "<<", "(", "~", "#", "@", "|", "/", "%", "^", "="]
+        k = 0
+        for d in pipes:
+            if rng.random() < 0.75:
+                d["post"].insert(rng.randint(0, len(d["post"])), {"id": "e%d" % k, "kind": ["embed", marks[k % len(marks)], ""], "cond": None})
+                k += 1
+            if rng.random() < 0.5:
+                d["items"].insert(rng.randint(0, len(d["items"])), {"id": "t%d" % k, "kind": ["add_cond", "m", "t%d" % k], "cond": None})
+                k += 1
+        refs = ["e%d" % j for j in range(k)] + ["t%d" % j for j in range(k)] + ["s0"]
+        for d in pipes:
+            if rng.random() < 0.8:
+                tgt = rng.choice(refs)
+                kind = ["embed", "", " ]" + tgt] if rng.random() < 0.8 else ["tpl_var", "backend"]
+                d["post"].insert(rng.randint(0, len(d["post"])), {"id": "c" + tgt, "kind": kind, "cond": ["applied", tgt]})
+            if rng.random() < 0.4:
+                tgt = rng.choice(refs)
+                d["items"].insert(rng.randint(0, len(d["items"])), {"id": "d" + tgt, "kind": ["suffix", "_" + tgt], "cond": ["applied", tgt]})
     return {"fmt": fmt, "defs": defs, "tab": tab, "bk": bk, "of": of, "rules": rules, "prog": []}
 
 
@@ -251,7 +280,7 @@ def gen_hist(tier, rng):
     out = []
     nbase = 30 if quick else 200
     for bi in range(nbase):
-        base = number(g_base(rng, tpl=0.12, heavy=(bi % 5 == 4)))
+        base = number(g_base(rng, tpl=0.12, heavy=(bi % 5 == 4), chain=(bi % 3 == 1)))
         n = len(base["defs"])
         specs = [e[0] for e in base["tab"]]
         m = len(specs)
@@ -358,7 +387,7 @@ def gen_hist(tier, rng):
     # --- several conversions on ONE backend object: the combined pipeline is composed anew, for the requested
     #     format and the current user pipeline, by every convert() call; convert_rule() keeps what is there
     for bi in range(14 if quick else 150):
-        base = number(g_base(rng, n=rng.choice([2, 2, 3]), tpl=0.1, fmtsdiff=True))
+        base = number(g_base(rng, n=rng.choice([2, 2, 3]), tpl=0.1, fmtsdiff=True, chain=(bi % 2 == 0)))
         n = len(base["defs"])
         comp = ["tree", rng.choice(bracketings(list(range(n - 1))))]      # user pipeline: operands 0..n-2 -> register n
         ext = n - 1                                                        # operand kept aside
@@ -391,7 +420,7 @@ def gen_hist(tier, rng):
             out.append(with_prog(base, prog))
     # --- random histories
     for ri in range(250 if quick else 3000):
-        base = number(g_base(rng, tpl=0.2, fmtsdiff=(ri % 3 == 0)))
+        base = number(g_base(rng, tpl=0.2, fmtsdiff=(ri % 3 == 0), chain=(ri % 4 == 1)))
         rf = lambda: ([rng.choice(FMTS)] if rng.random() < 0.5 else [])
         n = len(base["defs"])
         specs = [e[0] for e in base["tab"]]
@@ -427,7 +456,10 @@ def gen_hist(tier, rng):
 
 # ------------------------------------------------------------------------------------------ Coq terms
 def c_cond(c):
-    return "None" if c is None else f"(Some ({cstr(c[0])}, {cstr(c[1])}))"
+    if c is None: return "CNone"
+    if c[0] == "state": return f"(CState {cstr(c[1])} {cstr(c[2])})"
+    if c[0] == "applied": return f"(CApplied {cstr(c[1])})"
+    raise ValueError(c)
 
 
 def c_item(i):
